@@ -292,6 +292,19 @@ func buildC16(p *Program, tier string) ([]*Unit, []UnitError) {
 			}
 		}
 	}
+	// 3. map iteration order must not reach the output: a slice that is filled inside a range-over-map
+	// loop is sorted (sort.Slice / sort.Strings / sort.Sort) before anything else reads it, on every path.
+	nm := 0
+	for _, pkgPath := range []string{pkgDecorator, pkgDst, pkgDstutil} {
+		for _, fn := range allFuncs(p, pkgPath) {
+			for _, fill := range mapFilledSlices(fn) {
+				nm++
+				ok, why := sortedBeforeUse(fn, fill)
+				check(fmt.Sprintf("%s#order:map_filled_slice_sorted_before_use:%s", shortFn(fn), fill.name), ok, why, ex.pos(fill.alloc.Pos()))
+			}
+		}
+	}
+	check("decorator#order:scan_completed", nm > 0, fmt.Sprintf("%d slices filled from map iteration found", nm), "")
 	check("decorator#readonly:scan_completed", true, fmt.Sprintf("scanned packages decorator, guess, simple: %d writes to shared tables found", n), "")
 	return []*Unit{unit}, nil
 }
@@ -300,14 +313,14 @@ func init() {
 	register(&Property{
 		ID:       "C16",
 		Title:    "Concurrent use of separate decorators/restorers is race-free and deterministic",
-		Packages: []string{pkgDecorator, pkgGoast, pkgGuess, pkgSimple},
+		Packages: []string{pkgDecorator, pkgGoast, pkgGuess, pkgSimple, pkgDstutil, pkgDst},
 		Build:    buildC16,
 		Assumptions: []string{
 			"narrow claim: lock discipline and ownership on the one object the statement allows to be shared (goast.DecoratorResolver) and on read-only tables; no interleaving is explored",
 			"data-race freedom of everything each goroutine owns privately is assumed; token.FileSet is internally synchronised; a data-race-free program behaves as if each call ran alone (Go memory model)",
 			"callbacks passed to ast.Inspect are called synchronously inside the region where the closure was created",
 		},
-		NotDecided: []string{"determinism under map iteration order (the range-over-map loops of updateImports): not yet under contract", "which error is returned when two resolver calls would both fail"},
+		NotDecided: []string{"determinism under map iteration order beyond the one structural rule (a slice filled from a map is sorted by a dominating sort call before it is read; that the comparison is a strict total order is C07's lemma set): the map loops of updateImports that write maps (effectiveAlias, resolved, packageNames) are not proved order-independent", "which error is returned when two resolver calls would both fail"},
 	})
 }
 
@@ -341,4 +354,211 @@ func rootParam(v ssa.Value) *ssa.Parameter {
 		}
 	}
 	return nil
+}
+
+// ---- slices filled from map iteration ----
+
+type mapFill struct {
+	alloc *ssa.Alloc // the slice-typed local
+	name  string
+	loop  map[*ssa.BasicBlock]bool // blocks of the range-over-map loop(s) that fill it
+}
+
+// mapFilledSlices: slice-typed named locals that receive elements (indexed store or append) inside
+// the body of a loop that ranges over a map.
+func mapFilledSlices(fn *ssa.Function) []mapFill {
+	if len(fn.Blocks) == 0 {
+		return nil
+	}
+	_, back := blockOrder(fn)
+	loops := findLoops(fn, back)
+	found := map[*ssa.Alloc]*mapFill{}
+	for h, body := range loops {
+		isMapRange := false
+		for _, in := range h.Instrs {
+			if nx, ok := in.(*ssa.Next); ok {
+				if rg, ok := nx.Iter.(*ssa.Range); ok {
+					if _, ok := rg.X.Type().Underlying().(*types.Map); ok {
+						isMapRange = true
+					}
+				}
+			}
+		}
+		if !isMapRange {
+			continue
+		}
+		for b := range body {
+			for _, in := range b.Instrs {
+				st, ok := in.(*ssa.Store)
+				if !ok {
+					continue
+				}
+				var target *ssa.Alloc
+				// s[i] = v
+				if ia, ok := st.Addr.(*ssa.IndexAddr); ok {
+					if ld, ok := ia.X.(*ssa.UnOp); ok {
+						if a, ok := ld.X.(*ssa.Alloc); ok {
+							target = a
+						}
+					}
+				}
+				// s = append(s, v)
+				if a, ok := st.Addr.(*ssa.Alloc); ok {
+					if c, ok := st.Val.(*ssa.Call); ok {
+						if bi, ok := c.Call.Value.(*ssa.Builtin); ok && bi.Name() == "append" {
+							target = a
+						}
+					}
+				}
+				if target == nil {
+					continue
+				}
+				if _, ok := deref(target.Type()).Underlying().(*types.Slice); !ok {
+					continue
+				}
+				mf := found[target]
+				if mf == nil {
+					mf = &mapFill{alloc: target, name: target.Comment, loop: map[*ssa.BasicBlock]bool{}}
+					found[target] = mf
+				}
+				for bb := range body {
+					mf.loop[bb] = true
+				}
+			}
+		}
+	}
+	var out []mapFill
+	for _, mf := range found {
+		out = append(out, *mf)
+	}
+	sort.Slice(out, func(i, j int) bool { return out[i].alloc.Pos() < out[j].alloc.Pos() })
+	return out
+}
+
+// sortedBeforeUse: some sort call on the slice dominates every read of it outside the filling loop
+// (other than the reads that feed the sort call itself).
+func sortedBeforeUse(fn *ssa.Function, mf mapFill) (bool, string) {
+	isSort := func(c *ssa.CallCommon) bool {
+		if f := c.StaticCallee(); f != nil && f.Pkg != nil && f.Pkg.Pkg.Path() == "sort" {
+			switch f.Name() {
+			case "Slice", "SliceStable", "Strings", "Sort", "Stable", "Ints":
+				return true
+			}
+		}
+		return false
+	}
+	fromSlice := func(v ssa.Value) bool {
+		for i := 0; i < 6; i++ {
+			switch x := v.(type) {
+			case *ssa.UnOp:
+				if a, ok := x.X.(*ssa.Alloc); ok {
+					return a == mf.alloc
+				}
+				v = x.X
+			case *ssa.MakeInterface:
+				v = x.X
+			case *ssa.ChangeType:
+				v = x.X
+			case *ssa.Convert:
+				v = x.X
+			default:
+				return false
+			}
+		}
+		return false
+	}
+	var sorts []*ssa.Call
+	for _, b := range fn.Blocks {
+		for _, in := range b.Instrs {
+			if c, ok := in.(*ssa.Call); ok && isSort(&c.Call) && len(c.Call.Args) > 0 && fromSlice(c.Call.Args[0]) {
+				sorts = append(sorts, c)
+			}
+		}
+	}
+	if len(sorts) == 0 {
+		// never sorted: acceptable only if never read outside the loop
+		for _, b := range fn.Blocks {
+			if mf.loop[b] {
+				continue
+			}
+			for _, in := range b.Instrs {
+				if ld, ok := in.(*ssa.UnOp); ok && ld.X == mf.alloc {
+					return false, fmt.Sprintf("%s is filled in map iteration order and read without being sorted", mf.name)
+				}
+			}
+		}
+		return true, mf.name + " is filled from a map and never read outside the loop"
+	}
+	for _, b := range fn.Blocks {
+		if mf.loop[b] {
+			continue
+		}
+		for idx, in := range b.Instrs {
+			ld, ok := in.(*ssa.UnOp)
+			if !ok || ld.X != mf.alloc {
+				continue
+			}
+			covered := false
+			for _, sc := range sorts {
+				sb := sc.Block()
+				if sb == b {
+					// same block: the read feeds the sort call or follows it
+					pos := -1
+					for j, x := range b.Instrs {
+						if x == ssa.Instruction(sc) {
+							pos = j
+						}
+					}
+					if idx > pos {
+						covered = true
+					} else {
+						feeds := false
+						for _, a := range sc.Call.Args {
+							if v, ok := a.(ssa.Value); ok && (v == ssa.Value(ld) || fromSliceVia(v, ld)) {
+								feeds = true
+							}
+						}
+						if feeds {
+							covered = true
+						}
+					}
+				} else if sb.Dominates(b) {
+					covered = true
+				}
+			}
+			if !covered {
+				// reads before the fill (e.g. len(s) for make) are harmless: they come before the loop
+				beforeLoop := false
+				for lb := range mf.loop {
+					if b.Dominates(lb) && !mf.loop[b] {
+						beforeLoop = true
+					}
+				}
+				if beforeLoop {
+					continue
+				}
+				return false, fmt.Sprintf("%s is filled in map iteration order; a read of it is not dominated by a sort call", mf.name)
+			}
+		}
+	}
+	return true, mf.name + " is sorted before every read that follows the map iteration"
+}
+
+func fromSliceVia(v ssa.Value, ld *ssa.UnOp) bool {
+	for i := 0; i < 6; i++ {
+		if v == ssa.Value(ld) {
+			return true
+		}
+		switch x := v.(type) {
+		case *ssa.MakeInterface:
+			v = x.X
+		case *ssa.ChangeType:
+			v = x.X
+		case *ssa.Convert:
+			v = x.X
+		default:
+			return false
+		}
+	}
+	return false
 }
